@@ -896,6 +896,18 @@ func (fx *FnExec) instrMods(ins ssa.Instruction, ms *modSet) {
 	case *ssa.MakeClosure:
 		ms.heaps["alloc"] = SInt
 	case *ssa.MakeInterface:
+	case *ssa.Next:
+		// handing out a key records it in the ghost visited set of the iterator
+		if !x.IsString {
+			if rg, ok := x.Iter.(*ssa.Range); ok {
+				if mt, ok := rg.X.Type().Underlying().(*types.Map); ok {
+					ks := fx.mapKeySort(mt.Key())
+					name := "G_visited_" + sanitize(string(ks))
+					ms.heaps[name] = ArrSort(SInt, ArrSort(ks, SBool))
+					ms.full[name] = true
+				}
+			}
+		}
 	case ssa.CallInstruction:
 		fx.callMods(x, ms)
 	}
@@ -1344,6 +1356,12 @@ func (fx *FnExec) backEdge(li *loopInfo, st *State, p token.Pos) {
 
 // assumeType adds the range/shape facts implied by a Go type for a fresh value.
 func (fx *FnExec) assumeType(st *State, v *Term, t types.Type) {
+	if fromEntryHeap(v) && fx.entryAlloc != nil {
+		// read from a heap component nobody has written since the function was entered: the value
+		// existed at entry, so what it refers to lies below the entry allocation counter
+		fx.c.Assume(Implies(st.guard, fx.typeInv(v, t, fx.entryAlloc)))
+		return
+	}
 	fx.c.Assume(Implies(st.guard, fx.typeInv(v, t, fx.heapGet(st, "alloc", SInt))))
 }
 
@@ -2051,4 +2069,29 @@ func (fx *FnExec) strConcat(st *State, a, b *Term) *Term {
 		}
 	}
 	return MkStr(arr, Add(la, lb))
+}
+
+
+// fromEntryHeap: t is a read select(H0_..., r) (possibly of a struct assembled from such
+// reads) from heap components still in their entry version.
+func fromEntryHeap(t *Term) bool {
+	if t == nil {
+		return false
+	}
+	if t.Op == "select" && len(t.Args) == 2 {
+		a := t.Args[0]
+		return len(a.Args) == 0 && strings.HasPrefix(a.Op, "H0_")
+	}
+	if isCtor(t.Op) && len(t.Args) > 0 {
+		for _, a := range t.Args {
+			if a.lit != nil {
+				continue
+			}
+			if !fromEntryHeap(a) {
+				return false
+			}
+		}
+		return true
+	}
+	return false
 }
